@@ -257,10 +257,32 @@ pub fn generate(rng: &mut Rng, tier: &str) -> Case {
         relations.push("identical".to_owned());
     }
     // ---- equivalent: reorderings
-    let mut perms = permutations(n);
-    perms.retain(|p| *p != identity);
-    rng.shuffle(&mut perms);
     let n_perm = if tier == "quick" { 2 } else { 23 };
+    let mut perms = if n <= 5 {
+        let mut all = permutations(n);
+        all.retain(|p| *p != identity);
+        rng.shuffle(&mut all);
+        all
+    } else {
+        // too many to enumerate: the reversal, a rotation and seeded shuffles
+        let mut some: Vec<Vec<usize>> = Vec::new();
+        let mut rev = identity.clone();
+        rev.reverse();
+        some.push(rev);
+        let mut rot = identity.clone();
+        rot.rotate_left(1 + rng.usize_below(n - 1));
+        some.push(rot);
+        while some.len() < n_perm + 2 {
+            let mut s = identity.clone();
+            rng.shuffle(&mut s);
+            if s != identity {
+                some.push(s);
+            }
+        }
+        rng.shuffle(&mut some);
+        some
+    };
+    perms.truncate(n_perm);
     for p in perms.into_iter().take(n_perm) {
         let ps = perturb(rng, &sim);
         scenarios.push(build(&layout, &program, &p, &dir_identity, &gen_args, &ps, &format!("argument order {p:?}"), &extra));
